@@ -257,6 +257,16 @@ func (k *Check[T]) Run(t TB, c *T) {
 		journal(k.Name, c)
 	}
 	if err := k.Try(c); err != nil {
+		if soft := os.Getenv("VERIF_SOFT"); soft != "" {
+			// development aid (never set by the driver): record the failure and keep searching
+			if f, e := os.OpenFile(soft, os.O_APPEND|os.O_CREATE|os.O_WRONLY, 0o644); e == nil {
+				raw, _ := json.Marshal(c)
+				b, _ := json.Marshal(replayFile{Check: k.Name, Reason: err.Error(), Case: raw})
+				f.Write(append(b, '\n'))
+				f.Close()
+			}
+			return
+		}
 		writeFail(k.Name, c, err.Error())
 		t.Logf("check %s failed: %v", k.Name, err)
 		if b, e := json.Marshal(c); e == nil && len(b) < 4000 {
